@@ -392,7 +392,7 @@ class AnnotationCollectionModel(BaseModel):
     completely_within: Optional[bool] = None
     parent_or_seq_chunk_parent: Optional[ParentModel] = None
 
-    @post_dump(pass_original=True, pass_many=False)
+    @post_dump(pass_original=True)
     def post_dump(self, data, model, many=False):
         """
         If the object being dumped is an AnnotationCollection, convert the ``_parent_or_seq_chunk_parent``
